@@ -1615,6 +1615,11 @@ func loopEnum(args []string, w *bufio.Writer) {
 			emit("obj 1 "+kind, "writeall 1 70000 op=11", "read 1 8 op=12", "pending", end, "pending", "poll", "poll", "pending")
 		}
 	}
+	// ... and data arriving for the read while the write is stalled (the peer does not drain): arming the second interest must not
+	// replace the first, in either order
+	emit("obj 1 tcp", "read 1 8 op=11", "writeall 1 200000 op=12", "pending", "peer 1 write 8", "poll", "pending", "peer 1 drain", "poll", "peer 1 drain", "poll", "pending")
+	emit("obj 1 tcp", "writeall 1 200000 op=12", "read 1 8 op=11", "pending", "peer 1 write 8", "poll", "pending", "peer 1 drain", "poll", "peer 1 drain", "poll", "pending")
+	emit("obj 1 tcp", "readall 1 8 op=11", "writeall 1 200000 op=12", "peer 1 write 4", "poll", "pending", "peer 1 write 4", "poll", "pending", "peer 1 drain", "poll", "peer 1 drain", "poll", "pending")
 	emit("obj 1 packet", "recvfrom 1 16 op=11", "close 1", "pending", "poll", "pending")
 	emit("obj 1 listener", "accept 1 op=11", "close 1", "pending", "poll", "pending")
 	// 5. two completions harvested by the same epoll_wait: the handler that runs first closes / cancels the other
